@@ -250,3 +250,33 @@ fn num_views() {
         }
     }
 }
+
+// ---- solver experiments (not registered) ----
+#[kani::proof]
+#[kani::solver(kissat)]
+fn xp_i64_float_kissat() {
+    let a = Number::Int64(kani::any());
+    let b = Number::Float64(kani::any());
+    check_pair(&a, &b);
+}
+#[kani::proof]
+#[kani::solver(z3)]
+fn xp_i64_float_z3() {
+    let a = Number::Int64(kani::any());
+    let b = Number::Float64(kani::any());
+    check_pair(&a, &b);
+}
+#[kani::proof]
+#[kani::solver(cvc5)]
+fn xp_i64_float_cvc5() {
+    let a = Number::Int64(kani::any());
+    let b = Number::Float64(kani::any());
+    check_pair(&a, &b);
+}
+#[kani::proof]
+#[kani::solver(bitwuzla)]
+fn xp_i64_float_bitwuzla() {
+    let a = Number::Int64(kani::any());
+    let b = Number::Float64(kani::any());
+    check_pair(&a, &b);
+}
